@@ -40,11 +40,25 @@ pub struct DbCfg {
     pub sync: SyncMode,
     pub buckets: u16,
     pub writer_threads: u16,
+    #[serde(default = "two")]
+    pub reader_threads: u16,
+}
+
+fn two() -> u16 {
+    2
+}
+
+static OPENS: std::sync::atomic::AtomicU64 = std::sync::atomic::AtomicU64::new(0);
+
+/// Number of databases opened by this process so far (each open leaks the reader pool's threads:
+/// the pool and its block caches reference each other).
+pub fn opens() -> u64 {
+    OPENS.load(std::sync::atomic::Ordering::Relaxed)
 }
 
 impl DbCfg {
     pub fn simple(seg: usize, compression: bool, sync: SyncMode) -> Self {
-        DbCfg { seg, compression, sync, buckets: 1, writer_threads: 1 }
+        DbCfg { seg, compression, sync, buckets: 1, writer_threads: 1, reader_threads: 2 }
     }
     pub fn label(&self) -> String {
         format!("seg={}/comp={}/sync={:?}/b={}/w={}", self.seg, self.compression, self.sync, self.buckets, self.writer_threads)
@@ -52,11 +66,12 @@ impl DbCfg {
 }
 
 pub fn builder(cfg: &DbCfg) -> DatabaseBuilder {
+    OPENS.fetch_add(1, std::sync::atomic::Ordering::Relaxed);
     let mut b = DatabaseBuilder::new();
     b.segment_size_bytes(cfg.seg)
         .total_buckets(cfg.buckets)
         .bucket_ids_from_range(0..cfg.buckets)
-        .reader_threads(2)
+        .reader_threads(cfg.reader_threads)
         .writer_threads(cfg.writer_threads)
         .cache_capacity_bytes(8 * 1024 * 1024)
         .compression(cfg.compression);
@@ -200,6 +215,9 @@ impl TxS {
 pub enum Op {
     Append(TxS),
     Reopen,
+    /// several appends issued back to back without awaiting the previous one (arrival order =
+    /// list order): later ones are validated while earlier ones are still unsynced
+    Batch(Vec<TxS>),
 }
 
 pub fn stream_name(prefix: &str, s: u8) -> String {
@@ -381,6 +399,48 @@ impl H {
         }
     }
 
+    /// Issues all transactions without awaiting in between (first polls happen in list order, each
+    /// first poll runs the future up to the reply wait, i.e. past the channel send), then awaits all.
+    pub fn append_batch(&mut self, ts: &[TxS]) -> Result<Vec<bool>, Problem> {
+        let mut built = Vec::new();
+        for t in ts {
+            // the model is advanced at build time so that later expectations resolve against it
+            let (mtx, rtx) = self.build(t);
+            let rtx = rtx.map_err(|e| problem("harness", e))?;
+            let impl_fail = t.impl_failure_expected(self.cfg.seg);
+            let verdict = if impl_fail { Err(None) } else { self.model.apply(&mtx).map_err(Some) };
+            built.push((rtx, verdict, mtx));
+        }
+        let db = self.db().clone();
+        let futs: Vec<_> = built.iter().map(|(rtx, _, _)| db.append_events(rtx.clone())).collect();
+        let results = match self.rt.block_on(async move { tokio::time::timeout(APPEND_DEADLINE, futures::future::join_all(futs)).await }) {
+            Ok(r) => r,
+            Err(_) => return Err(problem("append-never-completed", format!("a batch of appends did not return within {APPEND_DEADLINE:?}"))),
+        };
+        let mut out = Vec::new();
+        for (i, (res, (_, verdict, mtx))) in results.into_iter().zip(built.iter()).enumerate() {
+            match (res, verdict) {
+                (Ok(r), Ok(acc)) => {
+                    if r.first_partition_sequence != acc.first_seq || r.last_partition_sequence != acc.last_seq {
+                        return Err(problem("wrong-sequence-in-result", format!("batch element {i}: result sequences {}..={} but model {}..={}", r.first_partition_sequence, r.last_partition_sequence, acc.first_seq, acc.last_seq)));
+                    }
+                    for (s, v) in &acc.stream_versions {
+                        let got = r.stream_versions.iter().find(|(k, _)| k.as_ref() as &str == s.as_str()).map(|(_, v)| *v);
+                        if got != Some(*v) {
+                            return Err(problem("wrong-version-in-result", format!("batch element {i}: version for {s}: {got:?}, model {v}")));
+                        }
+                    }
+                    let _ = mtx;
+                    out.push(true);
+                }
+                (Err(_), Err(_)) => out.push(false),
+                (Ok(_), Err(why)) => return Err(problem("accepted-should-reject", format!("batch element {i} accepted although the model rejects it ({why:?})"))),
+                (Err(e), Ok(_)) => return Err(problem("rejected-should-accept", format!("batch element {i} rejected although the model accepts it: {e}"))),
+            }
+        }
+        Ok(out)
+    }
+
     // ------------------------------------------------------------------ reads
 
     pub fn scan_stream(&self, stream: &str, partition: u16, from: u64, dir: IterDirection, batch: usize) -> Result<Vec<CommittedEvents>, String> {
@@ -391,6 +451,16 @@ impl H {
                 let mut it = db.read_stream(partition, sid, from, dir).await.map_err(|e| format!("read_stream: {e}"))?;
                 let mut out = Vec::new();
                 let mut guard = 0;
+                if batch == 0 {
+                    while let Some(c) = it.next().await.map_err(|e| format!("next: {e}"))? {
+                        out.push(c);
+                        guard += 1;
+                        if guard > 10_000 {
+                            return Err("scan does not terminate".to_string());
+                        }
+                    }
+                    return Ok(out);
+                }
                 while let Some(b) = it.next_batch(batch).await.map_err(|e| format!("next_batch: {e}"))? {
                     out.extend(b);
                     guard += 1;
@@ -412,6 +482,16 @@ impl H {
                 let mut it = db.read_partition(partition, from, dir).await.map_err(|e| format!("read_partition: {e}"))?;
                 let mut out = Vec::new();
                 let mut guard = 0;
+                if batch == 0 {
+                    while let Some(c) = it.next().await.map_err(|e| format!("next: {e}"))? {
+                        out.push(c);
+                        guard += 1;
+                        if guard > 10_000 {
+                            return Err("scan does not terminate".to_string());
+                        }
+                    }
+                    return Ok(out);
+                }
                 while let Some(b) = it.next_batch(batch).await.map_err(|e| format!("next_batch: {e}"))? {
                     out.extend(b);
                     guard += 1;
